@@ -25,7 +25,10 @@ import (
 	"time"
 
 	"github.com/gin-gonic/gin"
+	"github.com/go-kit/log"
 	"github.com/prometheus/client_golang/prometheus"
+	"github.com/prometheus/prometheus/config"
+	pdisc "github.com/prometheus/prometheus/discovery"
 	"github.com/prometheus/prometheus/model/labels"
 	pscrape "github.com/prometheus/prometheus/scrape"
 	"github.com/sirupsen/logrus"
@@ -128,6 +131,10 @@ type Sidecar struct {
 	SM       *kscrape.Manager
 	Proxy    *sidecar.Proxy
 	Svc      *sidecar.Service
+	Inj      *sidecar.Injector
+	OutFile  string // the configuration file the simulated Prometheus of this shard reads
+	parsedOf string
+	parsed   []promTarget
 	ingested map[uint64]int64
 
 	// faults (cycles remaining / armed matchers)
@@ -186,6 +193,8 @@ type World struct {
 	MoveStart   map[int]map[uint64]int // Attempts value of a holder when another shard was given the target (-1: none)
 	HandOver    []string               // violations of the hand-over rule seen by the harness counters
 	delivered   []deliveredPost
+	ScrapeRound int            // number of ScrapeAll rounds so far
+	ScrapedIn   map[uint64]int // target hash -> last ScrapeAll round in which the farm served it
 
 	cur        *CycleRec
 	Cycles     []*CycleRec
@@ -194,6 +203,13 @@ type World struct {
 	Transfers  int
 	ScaleMoves int
 	farmCli    *http.Client
+	outSeq     int
+}
+
+// promTarget is one target the shard's (simulated) Prometheus scrapes, as listed in the generated file.
+type promTarget struct {
+	hash uint64
+	url  string
 }
 
 type farmTransport struct{ w *World }
@@ -226,6 +242,10 @@ func (f farmTransport) RoundTrip(r *http.Request) (*http.Response, error) {
 	if t != nil {
 		spec = *t
 	}
+	if f.w.ScrapedIn == nil {
+		f.w.ScrapedIn = map[uint64]int{}
+	}
+	f.w.ScrapedIn[h] = f.w.ScrapeRound
 	f.w.mu.Unlock()
 	if err != nil || t == nil {
 		return nil, fmt.Errorf("no such host %s", host)
@@ -246,7 +266,14 @@ func (w *World) newSidecar(ordinal int, dir string) *Sidecar {
 	sc.Cfg = prom.NewConfigManager()
 	sc.TM = sidecar.NewTargetsManager(dir, prometheus.NewRegistry(), quiet)
 	sc.SM = kscrape.New(false, quiet)
-	sc.Cfg.AddReloadCallbacks(sc.SM.ApplyConfig)
+	// wired as cmd/kvass/sidecar.go wires them: the injector regenerates the Prometheus configuration on
+	// every configuration reload and on every accepted targets update; the file lives on a volume that
+	// does not survive the pod (a fresh file per sidecar process)
+	w.outSeq++
+	sc.OutFile = filepath.Join(w.root, fmt.Sprintf("prometheus-injected-%d-%d.yaml", ordinal, w.outSeq))
+	sc.Inj = sidecar.NewInjector(sc.OutFile, sidecar.InjectConfigOptions{ProxyURL: "http://127.0.0.1:8008"}, prometheus.NewRegistry(), quiet)
+	sc.Cfg.AddReloadCallbacks(sc.SM.ApplyConfig, sc.Inj.ApplyConfig)
+	sc.TM.AddUpdateCallbacks(sc.Inj.UpdateTargets)
 	getJob := func(job string) *kscrape.JobInfo {
 		ji := sc.SM.GetJob(job)
 		if ji != nil {
@@ -802,48 +829,78 @@ func (w *World) Scrape(i int) {
 		return
 	}
 	sc := w.Shards[i]
-	info := sc.TM.TargetsInfo()
-	var jobs []string
-	for j := range info.Targets {
-		jobs = append(jobs, j)
-	}
-	sort.Strings(jobs)
-	for _, job := range jobs {
-		for _, t := range info.Targets[job] {
-			q := url.Values{}
-			q.Set("_jobName", job)
-			q.Set("_hash", fmt.Sprint(t.Hash))
-			q.Set("_scheme", "http")
-			u := fmt.Sprintf("http://%s/metrics?%s", t.Address(), q.Encode())
-			req := httptest.NewRequest("GET", u, nil)
-			rec := httptest.NewRecorder()
+	for _, pt := range sc.promTargets() {
+		req := httptest.NewRequest("GET", pt.url, nil)
+		rec := httptest.NewRecorder()
+		func() {
+			defer func() { _ = recover() }() // the proxy aborts a response that fails mid-body
 			sc.Proxy.ServeHTTP(rec, req)
-			w.mu.Lock()
-			if w.SinceChange != nil && w.SinceChange[i] != nil {
-				if _, ok := w.SinceChange[i][t.Hash]; ok {
-					w.SinceChange[i][t.Hash]++
-				}
-				if w.Attempts[i] != nil {
-					w.Attempts[i][t.Hash]++
+		}()
+		w.mu.Lock()
+		if w.SinceChange != nil && w.SinceChange[i] != nil {
+			if _, ok := w.SinceChange[i][pt.hash]; ok {
+				w.SinceChange[i][pt.hash]++
+			}
+			if w.Attempts[i] != nil {
+				w.Attempts[i][pt.hash]++
+			}
+		}
+		w.mu.Unlock()
+		if rec.Code == 200 {
+			n := int64(0)
+			for _, line := range bytes.Split(rec.Body.Bytes(), []byte("\n")) {
+				if bytes.HasPrefix(line, []byte("keep_")) {
+					n++
 				}
 			}
-			w.mu.Unlock()
-			if rec.Code == 200 {
-				n := int64(0)
-				for _, line := range bytes.Split(rec.Body.Bytes(), []byte("\n")) {
-					if bytes.HasPrefix(line, []byte("keep_")) {
-						n++
+			sc.ingested[pt.hash] = n
+		}
+		_, _ = io.Copy(ioutil.Discard, rec.Body)
+	}
+}
+
+// promTargets returns what the shard's Prometheus scrapes: the static targets of the configuration
+// file the injector generated, expanded by the Prometheus library itself.
+func (sc *Sidecar) promTargets() []promTarget {
+	data, err := ioutil.ReadFile(sc.OutFile)
+	if err != nil {
+		return nil
+	}
+	if string(data) == sc.parsedOf {
+		return sc.parsed
+	}
+	sc.parsedOf, sc.parsed = string(data), nil
+	cfg, err := config.Load(string(data), false, log.NewNopLogger())
+	if err != nil {
+		return nil
+	}
+	for _, job := range cfg.ScrapeConfigs {
+		for _, sdc := range job.ServiceDiscoveryConfigs {
+			st, ok := sdc.(pdisc.StaticConfig)
+			if !ok {
+				continue
+			}
+			for _, g := range st {
+				ts, _ := pscrape.TargetsFromGroup(g, job)
+				for _, t := range ts {
+					if t.Labels().Len() == 0 {
+						continue
 					}
+					h, _ := strconv.ParseUint(t.URL().Query().Get("_hash"), 10, 64)
+					sc.parsed = append(sc.parsed, promTarget{hash: h, url: t.URL().String()})
 				}
-				sc.ingested[t.Hash] = n
 			}
-			_, _ = io.Copy(ioutil.Discard, rec.Body)
 		}
 	}
+	sort.Slice(sc.parsed, func(a, b int) bool { return sc.parsed[a].url < sc.parsed[b].url })
+	return sc.parsed
 }
 
 // ScrapeAll scrapes every shard once.
 func (w *World) ScrapeAll() {
+	w.mu.Lock()
+	w.ScrapeRound++
+	w.mu.Unlock()
 	for i := range w.Shards {
 		w.Scrape(i)
 	}
